@@ -369,3 +369,56 @@ def ordering_rules(chk, repo, rid):
     chk.ob(rid, where(repo, fi, fi.node), '_subtree_as_matrix: the local operator (with its coefficient) is the more significant '
            'factor of every subtree', ok, '', key=f'{rid}|subtree|order')
     return n + 3
+
+
+def aliasing_rules(chk, repo, rid):
+    """site tensors (and label arrays) of a new object are pairwise distinct arrays: a list built by repeating one mutable
+    element (`n * [array]`) aliases all sites, so that an in-place edit of one site changes every site"""
+    n = 0
+    for fi in repo.funcs.values():
+        if fi.module not in ('mps', 'mpo', 'operation'):
+            continue
+        for node in ast.walk(fi.node):
+            if not (isinstance(node, ast.BinOp) and isinstance(node.op, ast.Mult)):
+                continue
+            lst = node.left if isinstance(node.left, ast.List) else (node.right if isinstance(node.right, ast.List) else None)
+            if lst is None or len(lst.elts) != 1:
+                continue
+            el = lst.elts[0]
+            immutable = isinstance(el, ast.Constant) or (isinstance(el, ast.List) and all(isinstance(x, ast.Constant) for x in el.elts))
+            # where does the list go?
+            use = None
+            for s_ in ast.walk(fi.node):
+                if isinstance(s_, ast.Assign) and any(x is node for x in ast.walk(s_.value)):
+                    use = s_
+            tgt = norm(use.targets[0]) if use is not None else ''
+            is_site_list = tgt.endswith('.A') or tgt.endswith('.qD')
+            passed_to_ctor = any(isinstance(c_, ast.Call) and norm(c_.func) in ('cls', 'MPS', 'MPO') and
+                                 any(x is node for a_ in c_.args for x in ast.walk(a_)) for c_ in ast.walk(fi.node))
+            if passed_to_ctor and not is_site_list:
+                continue        # constructor arguments are converted element by element
+            ok = immutable or not is_site_list
+            chk.ob(rid, where(repo, fi, node), f'{fi.name}: `{norm(node)[:60]}` does not alias mutable site data', ok,
+                   '' if ok else f'`{tgt} = {norm(node)[:60]}` repeats one array object for every site',
+                   key=f'{rid}|{fi.qual}|{norm(node)[:80]}')
+            n += 1
+    return n
+
+
+def sum_dtype_rule(chk, repo, rid):
+    """tensors of a sum hold values of both operands: a preallocated block array must not take its dtype from one operand"""
+    n = 0
+    for q, x0, x1 in (('mps.add_mps', 'mps0', 'mps1'), ('mpo.add_mpo', 'op0', 'op1')):
+        fi = repo.func(q)
+        for c in ast.walk(fi.node):
+            if isinstance(c, ast.Call) and norm(c.func) in ('np.zeros', 'np.empty', 'np.zeros_like', 'np.empty_like'):
+                dt = [k.value for k in c.keywords if k.arg == 'dtype']
+                txt = norm(dt[0]) if dt else (norm(c.args[0]) if norm(c.func).endswith('_like') else None)
+                if txt is None:
+                    continue
+                m0, m1 = x0 in txt, x1 in txt
+                ok = (m0 and m1) or not (m0 or m1)
+                chk.ob(rid, where(repo, fi, c), f'{fi.name}: block array `{norm(c)[:60]}` can hold the entries of both operands', ok,
+                       '' if ok else f'dtype `{txt}` is taken from one operand only', key=f'{rid}|{q}|dtype|{norm(c)[:80]}')
+                n += 1
+    return n
